@@ -23,6 +23,9 @@ var c12Alphabets = map[string][]rune{
 	"mustache":   []rune("a{}' \n\r\U0001F600#"),
 }
 
+var c12Operators = map[string]bool{"(": true, ")": true, "[": true, "]": true, "+": true, "-": true, "*": true, "/": true, "%": true, "^": true,
+	"=": true, "<>": true, "!=": true, ">": true, "<": true, ">=": true, "<=": true, "<<": true, ">>": true, ",": true}
+
 var c12PosRe = regexp.MustCompile(` at line (\d+) and column (\d+)$`)
 
 // refPositions: reference (line,col) of each token of the option-free stream.
@@ -133,6 +136,19 @@ func c12Run(c *fw.Ctx, kind, text string, optSets []int) {
 					if !found {
 						c.Violation("error-position-not-at-a-token", "expression %q: error %s %q quotes (%d,%d), which is not the position of any token %s", text, ae.Code, ae.Message, l, col, tokStr(base.toks))
 					}
+					// UNKNOWN_SYMBOL: the offending token is the first token that is neither an operator,
+					// bracket, comma, word, keyword, number nor string; the quoted position must be exactly its position
+					if ae.Code == "UNKNOWN_SYMBOL" {
+						for i, t := range base.toks {
+							bad := t.typ == tokenizers.Unknown || (t.typ == tokenizers.Symbol && !c12Operators[strings.ToUpper(t.val)]) || (t.typ == tokenizers.Word && refDecode("expression", t.val) == "" && strings.HasPrefix(t.val, "\""))
+							if bad {
+								if ref[i][0] != l || ref[i][1] != col {
+									c.Violation("unknown-symbol-position", "expression %q: UNKNOWN_SYMBOL quotes (%d,%d) but the offending token %s is at (%d,%d)", text, l, col, fmt.Sprintf("%q", t.val), ref[i][0], ref[i][1])
+								}
+								break
+							}
+						}
+					}
 				}
 			}
 		}
@@ -184,7 +200,7 @@ func init() {
 		Level: "model_checking",
 		Rule: "4 tokenizers x every string up to the length bound over an alphabet with LF, CR, a quote, a comment opener, a multi-character symbol and an unknown character x option sets (quick: none, each single option, the parser's set, two combinations, all on; thorough: all 128); " +
 			"oracle: token k of the option-free stream sits at the forward-scan coordinates (independent rule model, cross-checked with a fresh real scanner) of offset sum(len(values before)); tokens under options are aligned with their originals through the C15 transformer and must carry the same position; Eof one column past the last character; " +
-			"positions quoted in expression syntax errors must be the position of a token; non-trivial = (multi-line input, option set) with >=3 tokens",
+			"positions quoted in expression syntax errors must be the position of a token, and for UNKNOWN_SYMBOL exactly the position of the first offending token; non-trivial = (multi-line input, option set) with >=3 tokens",
 		Assume: []string{"C04 and C15 hold for the (input, option set) (otherwise skipped and counted)", "coordinates as defined by C11's forward scan"},
 		Spaces: func(tier string) []fw.Space {
 			lens := map[string]int{"generic": 4, "expression": 4, "csv": 5, "mustache": 4}
